@@ -442,6 +442,11 @@ func c06specs() []c06spec {
 			}
 		}
 	}
+	// two hooks with byte-identical configurations (a hook copied under another name): they are
+	// still two hooks, each with its own start-up
+	for i := range menu {
+		sets = append(sets, []c06tmpl{menu[i], menu[i]})
+	}
 	for _, x := range c06extra() {
 		sets = append(sets, []c06tmpl{x})
 		if vres.Thorough() {
@@ -470,6 +475,15 @@ func c06specs() []c06spec {
 		}
 	}
 	out = append(out, c06spec{Name: "group/list-fails-once", Hooks: []c06tmpl{menu[2]}, FailJ: -1, ListFail: "n2"})
+	// a hook copied under another name, with a binding in a named queue: while the copy's first
+	// Synchronization fails and is retried, changes arrive; every start-up execution of it fails once
+	for _, x := range c06extra() {
+		if x.id == "two-kube-q2" {
+			for j := 0; j < 4; j++ {
+				out = append(out, c06spec{Name: fmt.Sprintf("two-kube-q2+two-kube-q2/fail#%d x1", j), Hooks: []c06tmpl{x, x}, FailJ: j, FailK: 1})
+			}
+		}
+	}
 	// paths whose directory-walk order differs from their lexical order ('.' sorts before '/')
 	out = append(out, c06spec{Name: "paths:common.sh,common/x.sh", Hooks: []c06tmpl{menu[1], menu[1]}, FailJ: -1, Names: []string{"common.sh", "common/x.sh"}})
 	out = append(out, c06spec{Name: "paths:10-net.d/b,10-net/a", Hooks: []c06tmpl{menu[1], menu[2]}, FailJ: -1, Names: []string{"10-net.d/b", "10-net/a"}})
